@@ -602,12 +602,18 @@ def progress(c, facts, b, g):
             if not a["alts"]:
                 c.ob("C03.progress", fn.key, "alt(())", False, "empty alt tuple: winnow asserts")
     c.floor("repetition sites", n, 10)
-    loops = []
+    loops, finite = [], []
     for fn in facts.nontest_fns():
         for x in find_all(fn.body, lambda x: x.get("k") in ("loop", "while", "for")):
+            if x["k"] == "for":
+                base, chain = rx.method_chain(x["iter"])
+                ms = [mm for mm, _, _ in chain]
+                # iteration over a finite, already materialised collection (string characters, slice/vec/map elements)
+                if ms and ms[0] in ("chars", "bytes", "char_indices", "iter", "into_iter", "iter_mut", "keys", "values", "lines", "split_whitespace") and not set(ms) & {"cycle", "repeat"} and not find_all(x["body"], lambda y: y.get("k") in ("loop", "while")):
+                    finite.append("%s: for over .%s()" % (fn.key, ms[0]))
+                    continue
             loops.append("%s:%s" % (fn.key, x["k"]))
-    sani_ok = [l for l in loops]
-    c.ob("C03.termination", "crate", "no open-coded loops", not loops, "loops in non-test code: %s" % loops if loops else "0 loop/while/for in non-test code: all iteration is through winnow repetitions and iterator adaptors over finite collections")
+    c.ob("C03.termination", "crate", "no unbounded loops", not loops, "loop/while (or for over an unbounded iterator) in non-test code: %s" % loops if loops else "0 loop/while in non-test code; for-loops only over finite collections: %s; all other iteration is through winnow repetitions and iterator adaptors" % (finite or "none"))
 
 
 def termination(c, facts, m):
